@@ -178,23 +178,33 @@ Qed.
 Lemma wf_md4_init : wf_regs md4_init.
 Proof. cbn. repeat split; reflexivity. Qed.
 
+Lemma unrot0 st : unrot 0 st = st.
+Proof. destruct st as [[[x y] z] w]. reflexivity. Qed.
+
+(* one round of 16 statements starting and ending in phase 0 *)
+Lemma round16_eq f Fn const X l st : fn_ok f Fn const -> wf_regs st ->
+  fold_left (fun q (_ : nat * N) => nextp q) l 0 = 0 ->
+  fold_left (exec_stmt X) (rot_stmts f 0 l) st = fold_left (md4_op Fn const X) l st
+  /\ wf_regs (fold_left (md4_op Fn const X) l st).
+Proof.
+  intros Hf Hwf Hp.
+  destruct (round_eq f Fn const X Hf l 0 st ltac:(left; reflexivity) Hwf) as [E W].
+  rewrite Hp, !unrot0 in E. auto.
+Qed.
+
 (* processChunk = RFC 1320 section 3.4, for every 32-bit state and every block *)
 Theorem process_chunk_rfc h chunk : wf_regs h ->
   process_chunk h chunk = md4_compress h (words_le chunk).
 Proof.
-  intros Hwf. destruct h as [[[h0 h1] h2] h3]. unfold process_chunk, md4_compress.
-  set (X := words_le chunk). set (h := (h0, h1, h2, h3)) in *.
+  intros Hwf. unfold process_chunk, md4_compress.
+  set (X := words_le chunk).
   rewrite go_schedule_rfc. unfold rfc_schedule. rewrite !fold_left_app.
-  assert (P0 : phase_ok 0) by (left; reflexivity).
-  destruct (round_eq FF md4_F 0 X ltac:(left; auto) md4_round1 0 h P0 Hwf) as [E1 W1].
-  change (unrot 0 h) with h in E1. rewrite E1.
-  change (fold_left (fun q _ => nextp q) md4_round1 0) with 0.
-  destruct (round_eq GG md4_G 0x5A827999 X ltac:(right; left; auto) md4_round2 0 _ P0 W1) as [E2 W2].
-  rewrite E2.
-  change (fold_left (fun q _ => nextp q) md4_round2 0) with 0.
-  destruct (round_eq HH md4_H 0x6ED9EBA1 X ltac:(right; right; auto) md4_round3 0 _ P0 W2) as [E3 W3].
-  rewrite E3.
-  change (fold_left (fun q _ => nextp q) md4_round3 0) with 0.
-  destruct (fold_left (md4_op md4_H 0x6ED9EBA1 X) md4_round3 _) as [[[a b] c] d].
-  cbn [unrot]. rewrite (N.add_comm h0), (N.add_comm h1), (N.add_comm h2), (N.add_comm h3). reflexivity.
+  destruct (round16_eq FF md4_F 0 X md4_round1 h ltac:(left; auto) Hwf eq_refl) as [E1 W1].
+  rewrite E1. set (st1 := fold_left (md4_op md4_F 0 X) md4_round1 h) in *. clearbody st1.
+  destruct (round16_eq GG md4_G 0x5A827999 X md4_round2 st1 ltac:(right; left; auto) W1 eq_refl) as [E2 W2].
+  rewrite E2. set (st2 := fold_left (md4_op md4_G 0x5A827999 X) md4_round2 st1) in *. clearbody st2.
+  destruct (round16_eq HH md4_H 0x6ED9EBA1 X md4_round3 st2 ltac:(right; right; auto) W2 eq_refl) as [E3 W3].
+  rewrite E3. set (st3 := fold_left (md4_op md4_H 0x6ED9EBA1 X) md4_round3 st2) in *. clearbody st3.
+  destruct h as [[[h0 h1] h2] h3]. destruct st3 as [[[a b] c] d].
+  rewrite (N.add_comm h0), (N.add_comm h1), (N.add_comm h2), (N.add_comm h3). reflexivity.
 Qed.
